@@ -105,6 +105,17 @@ def judge_c02(ctx, ex):
     for c, size in sym["counts"].items():
         shapes = shape_of(schema, c)
         expected_labels.add(R.shape_name(c)[2:-1])
+        sm_removal = "shapemap" in ctx["structure"]["tags"] and r0["flags"]["remove_empty_shapes"]
+        if len(shapes) == 0 and sm_removal:
+            # documented: an empty shape is removed.  Then no literal / value-set feature may reach the threshold
+            # (non-literal ones can vanish with the shapes they referenced: recorded finding)
+            for k, cnt in candidate_keys(sym, c).items():
+                if k[2] != ("nonliteral",):
+                    yield ("shape %s was removed although its feature %r reaches the threshold" % (c, k), ge_threshold_expr(cnt, size, t), None)
+                else:
+                    yield ("shape %s was removed although its feature %r reaches the threshold" % (c, k), ge_threshold_expr(cnt, size, t),
+                           "STAGE-ref-to-removed-shape-drops-constraint")
+            continue
         if len(shapes) != 1:
             yield ("%d shapes for class %s" % (len(shapes), c), True, None)
             continue
@@ -120,6 +131,8 @@ def judge_c02(ctx, ex):
         for k, cnt in cands.items():
             oracle = ge_threshold_expr(cnt, size, t)
             cls = "STAGE-nonliteral-filter-before-merge" if (tagged and k[2] == ("nonliteral",)) else None
+            if sm_removal and k[2] == ("nonliteral",):
+                cls = "STAGE-ref-to-removed-shape-drops-constraint"
             if k in present:
                 yield ("constraint %r present in %s although its frequency is below the threshold" % (k, sh.label), _neg(oracle), cls)
             else:
@@ -225,8 +238,8 @@ def _check_figure(ex, sym, c, d, prop, kind, card, ratio, count, size, flags, on
 class ConcreteRef:
     """Reference figures recomputed from the triples of a concrete document."""
 
-    def __init__(self, triples, inverse):
-        self.instances, self.feats = R.refprof(triples, inverse=inverse)
+    def __init__(self, triples, inverse, instances=None):
+        self.instances, self.feats = R.refprof(triples, inverse=inverse, instances=instances)
         self.ref, _ = R.reference_counts(self.instances, self.feats, lambda n: 1, inverse=inverse)
         self.sizes = {}
         for node, classes in self.instances.items():
@@ -259,13 +272,19 @@ def _num(fig):
         return float(fig.text)
 
 
-def concrete_c02(cref, schema, threshold, tags):
+def concrete_c02(cref, schema, threshold, tags, remove_empty=True):
     problems = []
     sym = cref.as_sym()
     labels = set()
     for c, size in cref.sizes.items():
         labels.add(R.shape_name(c)[2:-1])
         shapes = shape_of(schema, c)
+        sm_removal = "shapemap" in tags and remove_empty
+        if len(shapes) == 0 and sm_removal:
+            for k, cnt in candidate_keys(sym, c).items():
+                if k[2] != ("nonliteral",) and float(cnt) / float(size) >= threshold:
+                    problems.append("shape %s was removed although its feature %r reaches the threshold" % (c, k))
+            continue
         if len(shapes) != 1:
             problems.append("%d shapes for class %s" % (len(shapes), c))
             continue
@@ -279,6 +298,8 @@ def concrete_c02(cref, schema, threshold, tags):
         cands = candidate_keys(sym, c)
         for k, cnt in cands.items():
             if "iri+bnode" in tags and k[2] == ("nonliteral",):
+                continue
+            if sm_removal and k[2] == ("nonliteral",) and "known-ref-removed" in tags:
                 continue
             want = float(cnt) / float(size) >= threshold
             if want != (k in present):
@@ -459,14 +480,18 @@ def judge_c14(ctx, ex):
         if r["schema"] is None:
             yield (r["parse_problem"], True, None)
             return
-    # instance counts and outgoing constraints untouched
-    for sa, sb in zip(inv["schema"].shapes, direct["schema"].shapes):
-        if sa.label != sb.label:
-            yield ("shape order/labels differ with inverse_paths: %s vs %s" % (sa.label, sb.label), True, None)
-            return
-        yield ("instance count of %s changes with inverse_paths" % sa.label, fig_differs(ex, sa.n_instances, sb.n_instances), None)
-    if len(inv["schema"].shapes) != len(direct["schema"].shapes):
-        yield ("number of shapes changes with inverse_paths", True, None)
+    # instance counts and outgoing constraints untouched (a shape that owes its existence to incoming constraints only may be new)
+    by_label_dir = {sh.label: sh for sh in direct["schema"].shapes}
+    by_label_inv = {sh.label: sh for sh in inv["schema"].shapes}
+    for label, sb in by_label_dir.items():
+        if label not in by_label_inv:
+            yield ("shape %s disappears when inverse_paths is enabled" % label, True, None)
+            continue
+        yield ("instance count of %s changes with inverse_paths" % label, fig_differs(ex, by_label_inv[label].n_instances, sb.n_instances), None)
+    for label, sa in by_label_inv.items():
+        if label not in by_label_dir:
+            if not direct["flags"]["remove_empty_shapes"] or any(not stm.inverse for stm in sa.statements):
+                yield ("shape %s exists only with inverse_paths although it has outgoing constraints / empty shapes are kept" % label, True, None)
     yield from _same_constraints(ex, _constraint_table(inv["schema"], want_inverse=False), _constraint_table(direct["schema"], want_inverse=False),
                                  "outgoing constraints with inverse_paths vs without")
     t_inv = _constraint_table(inv["schema"], want_inverse=True)
@@ -867,9 +892,9 @@ def _partition(values, stms, ctx, visiting):
     return rec(0, [0] * n)
 
 
-def validate_graph(schema, triples, inverse):
+def validate_graph(schema, triples, inverse, instances=None):
     """-> list of problems: every instance must conform to the shape of each of its classes."""
-    instances, _ = R.refprof(triples, inverse=False)
+    instances, _ = R.refprof(triples, inverse=False, instances=instances)
     out_idx, in_idx = {}, {}
     for s, p, o in triples:
         out_idx.setdefault((s[1], p), []).append(o)
@@ -925,7 +950,7 @@ JUDGES = {
 
 def _cref(c, i=0):
     return ConcreteRef(c["triples"] if c["reals"][i]["run"]["graph"] == "G" else __import__("harness.stage", fromlist=["x"]).reverse_triples(c["triples"]),
-                       c["reals"][i]["run"]["flags"]["inverse_paths"])
+                       c["reals"][i]["run"]["flags"]["inverse_paths"], c.get("instances"))
 
 
 class _ConcreteEx:
@@ -963,7 +988,10 @@ def _conc_c03(c):
 
 CONCRETE = {
     "C01": lambda c: concrete_c01(_cref(c), c["schemas"][0], c["reals"][0]["run"]["flags"], c["tags"] + (["iri+bnode-known"] if "STAGE-nonliteral-merge-figures" in c["active"] else [])),
-    "C02": lambda c: concrete_c02(_cref(c), c["schemas"][0], c["reals"][0]["thr"], c["tags"] if "STAGE-nonliteral-filter-before-merge" in c["active"] else [t for t in c["tags"] if t != "iri+bnode"]),
+    "C02": lambda c: concrete_c02(_cref(c), c["schemas"][0], c["reals"][0]["thr"],
+                                  (c["tags"] if "STAGE-nonliteral-filter-before-merge" in c["active"] else [t for t in c["tags"] if t != "iri+bnode"]) +
+                                  (["known-ref-removed"] if "STAGE-ref-to-removed-shape-drops-constraint" in c["active"] else []),
+                                  c["reals"][0]["run"]["flags"]["remove_empty_shapes"]),
     "C04": lambda c: [],
     "C05": lambda c: [p for x, sch in zip(c["reals"], c["schemas"]) for p in shexc.check_closed(sch) + (shacl_problems(x["shacl"]) if x["shacl"] is not None else [])],
     "C12": lambda c: _run_symbolic_judge_concretely(judge_c12, c),
